@@ -436,6 +436,18 @@ func ruleRefusalIsAnError(c *Ctx, rid string) {
 		if !inFramework(fn) {
 			continue
 		}
+		// the clause is about executors, which apply the effect after asking a handler; a handler
+		// implementation that stores the id itself is judged by R13.d (no store on a path that
+		// then returns an error)
+		callsHandler := false
+		allInstrs(fn, func(ins ssa.Instruction) {
+			if cc := callCommon(ins); cc != nil && cc.IsInvoke() && isHandlerIface(cc.Value.Type().String()) {
+				callsHandler = true
+			}
+		})
+		if !callsHandler {
+			continue
+		}
 		okDom := false
 		for _, at := range factsAt(site.Block()) {
 			if ex, ok := at.X.(*ssa.Extract); ok && at.Kind == "nil" && at.Pos && ex.Index == 1 {
